@@ -123,6 +123,9 @@ package forkchoice
 //@   ensures atomic@C17: sections(fc.mu) <= old(sections(fc.mu)) + 1
 //@   ensures stale: old(fc.justified.Epoch) >= justified.Epoch && old(fc.finalized.Epoch) >= finalized.Epoch ==> err == nil && unchanged(fc.justified) && unchanged(fc.finalized) && unchanged(fc.pin) && gver == old(gver) && wver == old(wver) && vver == old(vver)
 //@   ensures applied: err == nil && !(old(fc.justified.Epoch) >= justified.Epoch && old(fc.finalized.Epoch) >= finalized.Epoch) ==> fc.justified == justified && fc.finalized == finalized
+// a refused update changes nothing: when the call fails with both checkpoints as they were, the pin is as it was too
+// (the pin is only given up once a new finalized checkpoint has been accepted)
+//@   ensures refused_keeps_pin@C10: err != nil && unchanged(fc.finalized) && unchanged(fc.justified) ==> unchanged(fc.pin)
 //@   ensures refused_finalized: !(old(fc.justified.Epoch) >= justified.Epoch && old(fc.finalized.Epoch) >= finalized.Epoch) && finalized != old(fc.finalized) && (g_unknown(old(gver), old(fc.finalized.Root), finalized.Root) || !g_insub(old(gver), old(fc.finalized.Root), finalized.Root)) ==> err != nil && unchanged(fc.justified) && unchanged(fc.finalized) && gver == old(gver) && wver == old(wver)
 //@   ensures refused_justified: !(old(fc.justified.Epoch) >= justified.Epoch && old(fc.finalized.Epoch) >= finalized.Epoch) && justified != old(fc.justified) && (g_unknown(old(gver), old(fc.finalized.Root), justified.Root) || !g_insub(old(gver), old(fc.finalized.Root), justified.Root)) ==> err != nil && unchanged(fc.justified) && unchanged(fc.finalized) && gver == old(gver) && wver == old(wver)
 
